@@ -45,7 +45,29 @@ def run(ctx):
     of = ctx.path("obs.ndjson")
     vf.gotest_ok(ctx, "./internal/playback/", "^TestVerif_C27_Crash$", cases=cf, out=of, timeout=1500,
                  params={"STRIDE": ctx.pick(67, 1), "EDGE": 2, "ALLPAT": ctx.pick(0, 1)})
-    recs = vf.read_ndjson(of)
+    # write faults (short write of the k-th part; exit / error-close with the limit lifted / not lifted)
+    fseen, faults = set(), []
+    for c in r.tagged("FAULT"):
+        key = json.dumps(c, sort_keys=True)
+        if key not in fseen:
+            fseen.add(key)
+            faults.append({"id": len(faults), "k": c["k"], "z": c["z"], "torn": c["torn"], "after": c["after"], "zone": c["zone"]})
+    if len(faults) < 60:
+        raise vf.Infra("generator produced only %d write faults" % len(faults))
+    if not ctx.thorough:
+        # quick: every (zone, torn) with the error handled and the limit lifted, on a seed-rotated part; exit and
+        # close-under-the-limit on a seed-rotated quarter of the zones
+        faults = [f for f in faults if f["k"] == 1 + (f["z"] + int(f["torn"]) + ctx.seed) % 3
+                  and (f["after"] == "close_lifted" or (f["z"] + ctx.seed) % 4 == (0 if f["after"] == "exit" else 1))]
+    ff = vf.write_ndjson(ctx.path("faults.ndjson"), faults)
+    of2 = ctx.path("obs_faults.ndjson")
+    vf.gotest_ok(ctx, "./internal/playback/", "^TestVerif_C27_Fault$", cases=ff, out=of2, timeout=1500,
+                 params={"BOTH": ctx.pick(0, 1)})
+    frecs = vf.read_ndjson(of2)
+    fdirs = [x for x in frecs if x["kind"] == "faultdir"]
+    if len(fdirs) < len(faults) * 2 // 3:
+        raise vf.Infra("harness replayed %d of %d write faults" % (len(fdirs), len(faults)))
+    recs = vf.read_ndjson(of) + frecs
     meta = [x for x in recs if x["kind"] == "meta"]
     recs = [x for x in recs if x["kind"] != "meta"]
     crash = [x for x in recs if x["kind"] == "crash"]
@@ -87,6 +109,14 @@ def run(ctx):
                    "mode": c["cls"]["mode"], "stage": c["cls"]["stage"], "symptom": sym}
             if sym == "process_exit":
                 key["panic"] = norm(o.get("panic", ""))
+        elif rec["kind"] == "faultdir":
+            g = rec["groups"][b["i"] - 1]
+            sym = "process_exit" if g["status"] == -1 else ("get_error" if g["status"] != 200 else "get_incomplete")
+            key = {"kind": "crash_point", "origin": "write_fault", "monitor": b["monitor"], "unit": "part",
+                   "where": "in_write" if g["tornTail"] else "boundary", "mode": "cut", "stage": "fault",
+                   "after": rec["cls"]["after"], "symptom": sym}
+        elif rec["kind"] == "faultfile":
+            key = {"kind": "write_fault", "monitor": b["monitor"], "after": rec["cls"]["after"], "second_run": rec["secondRun"]}
         else:
             key = {"kind": rec["kind"], "monitor": b["monitor"], "stream": rec["stream"]}
             if rec["kind"] in ("closed", "layout"):
@@ -106,6 +136,15 @@ def run(ctx):
                               "while writing the " + key["unit"] if key["where"] == "in_write" else "between writes",
                               key["mode"], ",".join(sorted(zones)), rec["stream"], rec["off"], rec["len"],
                               byid[rec["id"]]["parts"], symptom(o), str(o["got"])[:300], n))
+        elif rec["kind"] == "faultdir":
+            ctx.violation(key, "write of part %d fails after byte %d of the file (short write, then %s): playback of the directory: %s "
+                          "[%d cases]" % (rec["cls"]["k"], rec["limit"], rec["cls"]["after"],
+                                          [(g["status"], g["err"], len(g["exp"]), len(g["got"])) for g in rec["groups"]], n))
+        elif rec["kind"] == "faultfile":
+            ctx.violation(key, "write of part %d fails after byte %d of the file (short write, then %s): file %d (%d bytes) = %s + tail %s, "
+                          "header duration %s ms: monitor %s is false [%d cases]" % (
+                              rec["cls"]["k"], rec["limit"], rec["cls"]["after"], rec["file"], rec["len"], rec["boxes"], rec["tail"],
+                              rec["hdrDurMs"], key["monitor"], n))
         elif rec["kind"] == "closed":
             ctx.violation(key, "normally closed segment %d of stream %s: monitor %s is false (header duration %s ms, fed %s)" % (
                 rec["seg"], rec["stream"], key["monitor"], rec["hdrDurMs"], str(rec["fed"])[:400]))
@@ -133,6 +172,7 @@ def run(ctx):
                     "(stream, crash class from TLC, pattern, outcome signature) among non-empty files")
     ctx.set("crash_classes", len(cases))
     ctx.set("crash_points", len(crash))
+    ctx.set("write_faults", len(fdirs))
     ctx.set("closed_segments", len([x for x in recs if x["kind"] == "closed"]))
     ctx.set("traces_validated_against_impl", len(recs))
     ctx.set("child_restarts", meta[0]["childCrashes"])
